@@ -23,6 +23,7 @@ func init() {
 	streams["nest"] = &stream{gen: genNest, run: runHist}
 	streams["pol"] = &stream{gen: genPol, run: runHist}
 	streams["xfer"] = &stream{gen: genXfer, run: runHist}
+	streams["xferro"] = &stream{gen: genXferRO, run: runHist}
 }
 
 // genPos: an index that addresses an existing position of a stack of length n
@@ -544,7 +545,7 @@ func genXfer(r *rand.Rand, id string, tier string) string {
 	case 0:
 		dest = V{T: 'Z', Form: []string{"n", "a", "p"}[r.Intn(3)]}
 	case 1:
-		dest = []V{{T: 'i', I: 5}, {T: 'N'}, {T: 's', S: "x"}, {T: 'C', Form: "n", Kw: "k", Op: "c1", Xs: []V{{T: 'i', I: 1}}}, {T: 'o', Ty: 3, ID: 1}}[r.Intn(5)]
+		dest = []V{{T: 'i', I: 5}, {T: 'N'}, {T: 's', S: "x"}, {T: 'C', Form: "n", Kw: "k", Op: "c1", Xs: []V{{T: 'i', I: 1}}}, {T: 'o', Ty: 3, ID: 1}, {T: 'o', Ty: 22, ID: 1}, {T: 'o', Ty: 23, ID: 1}, {T: 'o', Ty: 20, ID: 3}}[r.Intn(8)]
 	case 2:
 		dc.Opt |= fRO
 		dest = genStackLit(r, dc, nd, true)
@@ -634,4 +635,19 @@ func genResets(r *rand.Rand, id string, tier string) string {
 		body(r.Intn(3))
 	}
 	return st.String() + " | " + strings.Join(ops, " ; ")
+}
+
+// xferro (C09): the read-only instance is the ARGUMENT of another instance's method: Transfer into it must report
+// false and leave it exactly as it was (content, order, capacity), whatever its form
+func genXferRO(r *rand.Rand, id string, tier string) string {
+	nextLeaf = 0
+	src := genStackLit(r, Cfg{Kind: kinds(r), Fifo: r.Intn(2) == 0}, 1+r.Intn(4), true)
+	dc := Cfg{Kind: kinds(r), Opt: fRO}
+	if r.Intn(2) == 0 {
+		dc.Cap = 2 + r.Intn(6)
+	}
+	nd := r.Intn(3)
+	dest := genStackLit(r, dc, nd, true)
+	dest.Form = []string{"n", "n", "a", "p"}[r.Intn(4)]
+	return src.String() + " | xfer " + dest.String() + " ; push i77"
 }
